@@ -1241,3 +1241,18 @@ impl SrtpContext {
         self.build_gcm_rtcp_nonce(index)
     }
 }
+
+/// verif hook (lifecycle, C10): read-only view of the negotiated profile and master keys.
+#[cfg(rustrtc_verif)]
+impl SrtpSession {
+    /// `(profile, tx_key, tx_salt, rx_key, rx_salt)`
+    pub fn verif_lc_keying(&self) -> (SrtpProfile, Vec<u8>, Vec<u8>, Vec<u8>, Vec<u8>) {
+        (
+            self.profile,
+            self.tx_keying.master_key.clone(),
+            self.tx_keying.master_salt.clone(),
+            self.rx_keying.master_key.clone(),
+            self.rx_keying.master_salt.clone(),
+        )
+    }
+}
